@@ -69,125 +69,131 @@ def run(index, rep, tier):
     rep.rule("R03.6", "a node's raw child list is not iterated while the loop body restructures that node")
 
     # ---------------- R03.1
-    nw = 0
-    seen_writers = set()
-    for fi in list(index.functions.values()):
-        for w in writes_in(fi.node):
-            if w.attr not in LINK_FIELDS:
-                continue
-            # other classes with same-named private fields of their own (not tree nodes)
-            if fi.cls is not None and isinstance(w.base, ast.Name) and w.base.id == "self" and not (
-                    index.is_subclass(fi.cls, NODE) or index.is_subclass(fi.cls, EDGE) or index.is_subclass(fi.cls, TREE)):
-                continue
-            nw += 1
-            seen_writers.add(fi.qualname)
-            ok = fi.qualname in LINK_WRITERS and w.attr in LINK_WRITERS[fi.qualname][0]
-            if ok and w.attr == "_child_nodes" and fi.qualname in (TREE + ".ladderize", TREE + ".reorder"):
-                ok = w.kind == "mutcall" and w.method in ("sort", "reverse")   # order-only
-            rep.check(ok, "R03.1", fi.qualname, "%s of %s.%s" % (w.kind if w.kind != "mutcall" else w.method, w.base_text, w.attr), fn_where(fi, w.stmt),
-                      "%s writes %s (%s)" % (fi.qualname, w.attr, LINK_WRITERS[fi.qualname][1] if fi.qualname in LINK_WRITERS else "NOT in the writer table"),
-                      "%s writes the link field `%s` directly (`%s`): only the book-keeping functions may, because each of them keeps parent/child/edge links paired; a direct write leaves a node listed under a parent it does not point to (or the reverse)"
-                      % (fi.qualname, w.attr, norm_stmt(w.stmt)))
-        for c in calls_in(fi.node):
-            if isinstance(c.func, ast.Name) and c.func.id == "setattr" and len(c.args) >= 2 and const_value(c.args[1]) in LINK_FIELDS:
-                rep.check(False, "R03.1", fi.qualname, norm(c), fn_where(fi, c), "setattr on a link field", "%s sets a link field through setattr" % fi.qualname)
-    rep.floor("R03.1", "writes to link fields", 35, nw)
-    for q in LINK_WRITERS:
-        index.function(q)
+    with rep.section("R03.1"):
+        nw = 0
+        seen_writers = set()
+        for fi in list(index.functions.values()):
+            for w in writes_in(fi.node):
+                if w.attr not in LINK_FIELDS:
+                    continue
+                # other classes with same-named private fields of their own (not tree nodes)
+                if fi.cls is not None and isinstance(w.base, ast.Name) and w.base.id == "self" and not (
+                        index.is_subclass(fi.cls, NODE) or index.is_subclass(fi.cls, EDGE) or index.is_subclass(fi.cls, TREE)):
+                    continue
+                nw += 1
+                seen_writers.add(fi.qualname)
+                ok = fi.qualname in LINK_WRITERS and w.attr in LINK_WRITERS[fi.qualname][0]
+                if ok and w.attr == "_child_nodes" and fi.qualname in (TREE + ".ladderize", TREE + ".reorder"):
+                    ok = w.kind == "mutcall" and w.method in ("sort", "reverse")   # order-only
+                rep.check(ok, "R03.1", fi.qualname, "%s of %s.%s" % (w.kind if w.kind != "mutcall" else w.method, w.base_text, w.attr), fn_where(fi, w.stmt),
+                          "%s writes %s (%s)" % (fi.qualname, w.attr, LINK_WRITERS[fi.qualname][1] if fi.qualname in LINK_WRITERS else "NOT in the writer table"),
+                          "%s writes the link field `%s` directly (`%s`): only the book-keeping functions may, because each of them keeps parent/child/edge links paired; a direct write leaves a node listed under a parent it does not point to (or the reverse)"
+                          % (fi.qualname, w.attr, norm_stmt(w.stmt)))
+            for c in calls_in(fi.node):
+                if isinstance(c.func, ast.Name) and c.func.id == "setattr" and len(c.args) >= 2 and const_value(c.args[1]) in LINK_FIELDS:
+                    rep.check(False, "R03.1", fi.qualname, norm(c), fn_where(fi, c), "setattr on a link field", "%s sets a link field through setattr" % fi.qualname)
+        rep.floor("R03.1", "writes to link fields", 35, nw)
+        for q in LINK_WRITERS:
+            index.function(q)
 
     # ---------------- R03.2
-    npair = 0
-    for q in sorted(seen_writers & set(LINK_WRITERS)):
-        fi = index.function(q)
-        npair += _pairing(rep, fi)
-    rep.floor("R03.2", "pairing obligations", 12, npair)
+    with rep.section("R03.2"):
+        npair = 0
+        for q in sorted(seen_writers & set(LINK_WRITERS)):
+            fi = index.function(q)
+            npair += _pairing(rep, fi)
+        rep.floor("R03.2", "pairing obligations", 12, npair)
 
     # ---------------- R03.3
-    ncol = 0
-    for fi in list(index.functions.values()):
-        for c in calls_in(fi.node):
-            if call_name(c) != "collapse" or not isinstance(c.func, ast.Attribute):
-                continue
-            ncol += 1
-            _collapse_guard(rep, fi, c)
-    rep.floor("R03.3", "Edge.collapse call sites", 6, ncol)
-    col = index.function(EDGE + ".collapse")
-    has_pre = any(isinstance(n, ast.Raise) for n in walk_no_nested(col.node))
-    rep.check(has_pre, "R03.3", col.qualname, "terminal-edge precondition", fn_where(col), "Edge.collapse refuses a terminal edge by raising ValueError (the precondition the callers must establish)",
-              "Edge.collapse no longer raises on a terminal edge; R03.3's premise changed")
+    with rep.section("R03.3"):
+        ncol = 0
+        for fi in list(index.functions.values()):
+            for c in calls_in(fi.node):
+                if call_name(c) != "collapse" or not isinstance(c.func, ast.Attribute):
+                    continue
+                ncol += 1
+                _collapse_guard(rep, fi, c)
+        rep.floor("R03.3", "Edge.collapse call sites", 6, ncol)
+        col = index.function(EDGE + ".collapse")
+        has_pre = any(isinstance(n, ast.Raise) for n in walk_no_nested(col.node))
+        rep.check(has_pre, "R03.3", col.qualname, "terminal-edge precondition", fn_where(col), "Edge.collapse refuses a terminal edge by raising ValueError (the precondition the callers must establish)",
+                  "Edge.collapse no longer raises on a terminal edge; R03.3's premise changed")
 
     # ---------------- R03.4
-    nflag = 0
-    for cq in (TREE, NODE, EDGE):
-        for fi in index.methods_of(cq):
-            if FLAG in fi.all_params and not body_is_stub(fi):
-                nflag += 1
-                _honours_flag(index, rep, fi)
-    rep.floor("R03.4", "methods with an update_bipartitions parameter", 14, nflag)
+    with rep.section("R03.4"):
+        nflag = 0
+        for cq in (TREE, NODE, EDGE):
+            for fi in index.methods_of(cq):
+                if FLAG in fi.all_params and not body_is_stub(fi):
+                    nflag += 1
+                    _honours_flag(index, rep, fi)
+        rep.floor("R03.4", "methods with an update_bipartitions parameter", 14, nflag)
 
     # ---------------- R03.5
-    nstale = 0
-    for fi in index.methods_of(TREE):
-        cfg = None
-        for c in calls_in(fi.node):
-            if call_name(c) not in ("remove_child", "insert_child", "add_child") or not c.args or not isinstance(c.args[-1], ast.Name):
-                continue
-            arg = c.args[-1].id
-            if arg not in fi.params:
-                continue
-            cfg = cfg or cfg_of(fi)
-            cn = node_of_ast(cfg, c)
-            # is there a call that may delete nodes between entry and this remove_child?
-            deleters = [n for n in cfg.nodes if any(call_name(x) in ("reseed_at", "suppress_unifurcations", "collapse_basal_bifurcation", "encode_bipartitions", "update_bipartitions")
-                                                   and isinstance(x.func, ast.Attribute) and norm(x.func.value) == "self" for x in node_calls(n))]
-            before = [d for d in deleters if cfg.can_reach(d, lambda n: n is cn) is not None]
-            if not before:
-                continue
-            nstale += 1
+    with rep.section("R03.5"):
+        nstale = 0
+        for fi in index.methods_of(TREE):
+            cfg = None
+            for c in calls_in(fi.node):
+                if call_name(c) not in ("remove_child", "insert_child", "add_child") or not c.args or not isinstance(c.args[-1], ast.Name):
+                    continue
+                arg = c.args[-1].id
+                if arg not in fi.params:
+                    continue
+                cfg = cfg or cfg_of(fi)
+                cn = node_of_ast(cfg, c)
+                # is there a call that may delete nodes between entry and this remove_child?
+                deleters = [n for n in cfg.nodes if any(call_name(x) in ("reseed_at", "suppress_unifurcations", "collapse_basal_bifurcation", "encode_bipartitions", "update_bipartitions")
+                                                       and isinstance(x.func, ast.Attribute) and norm(x.func.value) == "self" for x in node_calls(n))]
+                before = [d for d in deleters if cfg.can_reach(d, lambda n: n is cn) is not None]
+                if not before:
+                    continue
+                nstale += 1
 
-            def membership(n, c=c):
-                if n.kind == "test" and arg in names_in(n.ast) and any(isinstance(x, ast.Compare) and type(x.ops[0]).__name__ in ("In", "NotIn", "Is", "IsNot") for x in ast.walk(n.ast)):
-                    return True
-                # an earlier remove_child(arg) on the same parent raises unless arg is still its child
-                return any(call_name(x) == "remove_child" and x is not c and x.args and norm(x.args[-1]) == arg and norm(x.func.value) == norm(c.func.value) for x in node_calls(n))
-            ok = all(cfg.can_reach(d, lambda n: n is cn, avoid=membership) is None for d in before)
-            rep.check(ok, "R03.5", fi.qualname, "%s after %s" % (norm(c), sorted({call_name(x) for d in before for x in node_calls(d) if call_name(x)})), fn_where(fi, c),
-                      "%s: `%s` re-checks that %s still hangs where it was" % (fi.name, norm(c), arg),
-                      "%s calls a node-deleting operation and afterwards `%s` on the node it was given, without checking that the node is still a child: when the operation collapsed/suppressed that very node the call raises 'not listed as a child'"
-                      % (fi.qualname, norm(c)))
-    rep.floor("R03.5", "child-list operations on a parameter node after a node-deleting call", 1, nstale)
+                def membership(n, c=c):
+                    if n.kind == "test" and arg in names_in(n.ast) and any(isinstance(x, ast.Compare) and type(x.ops[0]).__name__ in ("In", "NotIn", "Is", "IsNot") for x in ast.walk(n.ast)):
+                        return True
+                    # an earlier remove_child(arg) on the same parent raises unless arg is still its child
+                    return any(call_name(x) == "remove_child" and x is not c and x.args and norm(x.args[-1]) == arg and norm(x.func.value) == norm(c.func.value) for x in node_calls(n))
+                ok = all(cfg.can_reach(d, lambda n: n is cn, avoid=membership) is None for d in before)
+                rep.check(ok, "R03.5", fi.qualname, "%s after %s" % (norm(c), sorted({call_name(x) for d in before for x in node_calls(d) if call_name(x)})), fn_where(fi, c),
+                          "%s: `%s` re-checks that %s still hangs where it was" % (fi.name, norm(c), arg),
+                          "%s calls a node-deleting operation and afterwards `%s` on the node it was given, without checking that the node is still a child: when the operation collapsed/suppressed that very node the call raises 'not listed as a child'"
+                          % (fi.qualname, norm(c)))
+        rep.floor("R03.5", "child-list operations on a parameter node after a node-deleting call", 1, nstale)
 
     # ---------------- R03.6
-    nloops = 0
-    for modname in ("dendropy.datamodel.treemodel._tree", "dendropy.datamodel.treemodel._node", "dendropy.datamodel.treemodel._edge"):
-        for fi in index.functions_in_module(modname):
-            al = alias_text(fi)
-            for loop in walk_no_nested(fi.node):
-                if not isinstance(loop, ast.For):
-                    continue
-                it = subst(norm(loop.iter), al) if isinstance(loop.iter, (ast.Name, ast.Attribute)) else None
-                if it is None or not it.endswith("._child_nodes"):
-                    continue
-                owner = it[: -len("._child_nodes")]
-                nloops += 1
-                bad = None
-                for s in loop.body:
-                    for c in calls_in(s):
-                        if isinstance(c.func, ast.Attribute) and call_name(c) in ("remove_child", "insert_child", "clear_child_nodes", "set_child_nodes", "reversible_remove_child") \
-                                and subst(norm(c.func.value), al) == owner:
-                            bad = c
-                        if isinstance(c.func, ast.Attribute) and call_name(c) in ("remove", "insert", "pop", "clear", "append") and subst(norm(c.func.value), al) == it:
-                            bad = c
-                        if isinstance(c.func, ast.Attribute) and call_name(c) == "collapse" and norm(loop.target) in norm(c.func.value):
-                            # collapsing a child's edge re-inserts grandchildren into the list being iterated
-                            bad = c
-                rep.check(bad is None, "R03.6", fi.qualname, "loop over %s mutating it: %s" % (it, norm(bad) if bad is not None else ""), fn_where(fi, loop),
-                          "%s iterates %s without restructuring %s in the body" % (fi.qualname, it, owner),
-                          "%s iterates the raw child list `%s` while the loop body calls `%s` on the same node: children are skipped or visited twice" % (fi.qualname, it, norm(bad) if bad is not None else ""))
-    rep.floor("R03.6", "loops over raw child lists", 8, nloops)
+    with rep.section("R03.6"):
+        nloops = 0
+        for modname in ("dendropy.datamodel.treemodel._tree", "dendropy.datamodel.treemodel._node", "dendropy.datamodel.treemodel._edge"):
+            for fi in index.functions_in_module(modname):
+                al = alias_text(fi)
+                for loop in walk_no_nested(fi.node):
+                    if not isinstance(loop, ast.For):
+                        continue
+                    it = subst(norm(loop.iter), al) if isinstance(loop.iter, (ast.Name, ast.Attribute)) else None
+                    if it is None or not it.endswith("._child_nodes"):
+                        continue
+                    owner = it[: -len("._child_nodes")]
+                    nloops += 1
+                    bad = None
+                    for s in loop.body:
+                        for c in calls_in(s):
+                            if isinstance(c.func, ast.Attribute) and call_name(c) in ("remove_child", "insert_child", "clear_child_nodes", "set_child_nodes", "reversible_remove_child") \
+                                    and subst(norm(c.func.value), al) == owner:
+                                bad = c
+                            if isinstance(c.func, ast.Attribute) and call_name(c) in ("remove", "insert", "pop", "clear", "append") and subst(norm(c.func.value), al) == it:
+                                bad = c
+                            if isinstance(c.func, ast.Attribute) and call_name(c) == "collapse" and norm(loop.target) in norm(c.func.value):
+                                # collapsing a child's edge re-inserts grandchildren into the list being iterated
+                                bad = c
+                    rep.check(bad is None, "R03.6", fi.qualname, "loop over %s mutating it: %s" % (it, norm(bad) if bad is not None else ""), fn_where(fi, loop),
+                              "%s iterates %s without restructuring %s in the body" % (fi.qualname, it, owner),
+                              "%s iterates the raw child list `%s` while the loop body calls `%s` on the same node: children are skipped or visited twice" % (fi.qualname, it, norm(bad) if bad is not None else ""))
+        rep.floor("R03.6", "loops over raw child lists", 8, nloops)
 
 
-# -------------------------------------------------------------------------
+    # -------------------------------------------------------------------------
 def _pairing(rep, fi):
     cfg = cfg_of(fi)
     al = alias_text(fi)
